@@ -4,6 +4,8 @@ From LzVerif Require Import Base.Bytes Filter.Delta Filter.DeltaProofs.
 From LzVerif Require Import Filter.Bcj Filter.BcjStream Filter.BcjDefects Filter.BcjCodeProofs
   Filter.BcjStreamProofs Filter.BcjIa64Proofs Filter.BcjX86InvProofs Filter.BcjRiscvInvProofs Filter.BcjAllProofs
   Filter.BcjDefectsProofs.
+From LzVerif Require Import Filter.Bcj2 Filter.Bcj2Enc Filter.Bcj2Defects Filter.Bcj2SpecProofs Filter.Bcj2ReaderProofs
+  Filter.Bcj2DefectsProofs.
 
 (* Delta: for EVERY distance value (the whole usize range, in or out of 1..256) and every byte
    string, the encoder does not panic, keeps the length, and the decoder returns the input. *)
@@ -212,3 +214,110 @@ Example C11_bcj_example :
   bcj_dec_script ARM 2147483632 [IData [253; 255]; IErr 8; IData [255; 235; 7]] [1; 3] = Ok ([255; 255; 255; 235; 7], None) /\
   no_midstream_tail ARM (bcj_init ARM 0) [[0; 0; 0; 235]; []; [1; 2; 3; 235; 9]].
 Proof. split; [vm_compute; reflexivity|]. split; [vm_compute; reflexivity|]. vm_compute. auto. Qed.
+
+(* ============================================================================================ *)
+(* BCJ2.  Models: Filter/Bcj2.v (Bcj2Decoder::decode and BCJ2Reader::read, after repo-patches/15 and
+   /16), Filter/Bcj2Enc.v (the format as a specification encoder: [bcj2_encode data ds] = the four
+   streams MAIN, CALL, JUMP, RC of 7-Zip's Bcj2Enc for the data when the encoder's choices "convert
+   this candidate or not" are the booleans [ds], one per E8 / E9 / 0F 8x candidate in stream order, a
+   missing one = do not convert; a candidate with fewer than four bytes behind it is never converted).
+   Every correctly encoded input is of that form for some [ds]. *)
+
+(* ---- one-shot decode: for EVERY byte string shorter than 2^32 - 6 (the bound of the range
+   coder's pending-byte counter in the specification encoder) and EVERY decision list, one call of
+   decode() on a fresh decoder with the four complete streams in its buffers and room for all the
+   output returns true, has stored exactly the data, and stops in state MAIN with code = 0 (the two
+   checks BCJ2Reader makes at the end) and all four buffers used up.  The fuel of the model's loop is
+   the one decode's model computes itself (2 + bytes in the MAIN buffer); no Panic / Fuel. ---- *)
+Theorem C11_bcj2_decodes_spec : forall data ds,
+  bytes_ok data = true -> Z.of_nat (length data) <= 4294967289 ->
+  exists d',
+    (let '(m, c, j, r) := bcj2_encode data ds in bcj2_decode_oneshot m c j r (zlen data)) = Ok (true, d', data) /\
+    bd_state d' = BCJ2_STREAM_MAIN /\ bd_code d' = 0 /\
+    sb_live (bd_main d') = [] /\ sb_live (bd_call d') = [] /\ sb_live (bd_jump d') = [] /\ sb_live (bd_rc d') = [].
+Proof. exact bcj2_decodes_spec. Qed.
+Print Assumptions C11_bcj2_decodes_spec.
+
+(* ---- BCJ2Reader::read: ANY chunking of each of the four streams by its inner reader (pieces of
+   any length: 1, 2, 3, 5, ... bytes for CALL/JUMP too; empty pieces are dropped) and ANY history of
+   destination sizes (zeros included): the calls return the first (sum of sizes) bytes of the data —
+   the bytes of the one-shot decode above —, none returns an error.  Fuel per call:
+   2 + bytes still in the four scripts. ---- *)
+Theorem C11_bcj2_reader_any_chunking : forall data ds pm pc pj pr sizes,
+  bytes_ok data = true -> Z.of_nat (length data) <= 4294967289 ->
+  (let '(m, c, j, r) := bcj2_encode data ds in concat pm = m /\ concat pc = c /\ concat pj = j /\ concat pr = r) ->
+  Forall (fun n => 0 <= n) sizes ->
+  let ins := (data_script pm, data_script pc, data_script pj, data_script pr) in
+  exists r' ins',
+    bcj2_read_calls (bcj2_read_fuel ins) (bcj2_reader_new (zlen data)) ins sizes =
+      Ok (firstn (Z.to_nat (fold_right Z.add 0 sizes)) data, [], r', ins').
+Proof. exact bcj2_reader_any_chunking. Qed.
+Print Assumptions C11_bcj2_reader_any_chunking.
+
+(* a zero-length read returns Ok(0) at once and changes nothing — in every reader state *)
+Theorem C11_bcj2_reader_zero_read : forall fuel r ins, bcj2_read fuel r ins 0 = Ok ([], None, r, ins).
+Proof. exact bcj2_reader_zero_read. Qed.
+Print Assumptions C11_bcj2_reader_zero_read.
+
+(* ---- repaired by repo-patches/16: the reader before it lost decoded bytes when an inner reader
+   failed transiently (witness: five literal bytes, MAIN reader fails once with Interrupted after
+   delivering them; the retrying caller gets nothing and a normal end of stream), and forgot the first
+   bytes of a CALL word when the failure came between them and the rest (witness: InvalidData for a
+   correct input).  [bcj2_dec_script_old] is the retry loop over the old read(). ---- *)
+Theorem C11_bcj2_reader_interrupted_refuted :
+  exists data ins sizes,
+    (let '(m, c, j, r) := bcj2_encode data [] in
+     fst (fst (fst ins)) = [IData m; IErr E_INTERRUPTED] /\ snd (fst (fst ins)) = data_script [c] /\
+     snd (fst ins) = data_script [j] /\ snd ins = data_script [r]) /\
+    bcj2_dec_script_old (zlen data) ins sizes = Ok ([], None) /\
+    bcj2_dec_script (zlen data) ins sizes = Ok (data, None) /\ data <> [].
+Proof. exact bcj2_reader_interrupted_drops_bytes_refuted. Qed.
+Print Assumptions C11_bcj2_reader_interrupted_refuted.
+
+Theorem C11_bcj2_reader_partial_word_refuted :
+  exists data ds ins,
+    (let '(m, c, j, r) := bcj2_encode data ds in
+     fst (fst (fst ins)) = data_script [m] /\
+     snd (fst (fst ins)) = [IData (firstn 2 c); IErr E_INTERRUPTED; IData (skipn 2 c)] /\
+     snd (fst ins) = data_script [j] /\ snd ins = data_script [r]) /\
+    bcj2_dec_script_old (zlen data) ins [] = Ok ([], Some E_INVALID_DATA) /\
+    bcj2_dec_script (zlen data) ins [] = Ok (data, None).
+Proof. exact bcj2_reader_partial_word_lost_refuted. Qed.
+Print Assumptions C11_bcj2_reader_partial_word_refuted.
+
+(* ---- repaired by repo-patches/15: `self.ip += ...` panicked in a build with overflow checks at
+   the first byte behind 4 GiB of output; the model (and a release build) wraps. ---- *)
+Theorem C11_bcj2_ip_checked_add_refuted :
+  exists ip num, 0 <= ip < 4294967296 /\ 0 < num <= BUF_SIZE /\
+    ip_add_checked ip num = Panic 2 /\ wrap32 (ip + wrap32 num) = 0.
+Proof. exact bcj2_ip_checked_add_refuted. Qed.
+Print Assumptions C11_bcj2_ip_checked_add_refuted.
+
+(* Non-vacuity: 43 bytes with eight candidates (E8 twice, E9, 0F 85, 0F 8F, an E8 inside an operand
+   that is not converted, an E8 with only two bytes behind it), decisions convert / keep / convert /
+   convert / keep / convert / convert / (ignored); targets wrap around 2^32.  The four streams, the
+   one-shot decode, and the reader over 1-, 2-, 3- and 5-byte pieces with destination sizes 3, 0, 5, 1
+   and a transient failure in the CALL reader. *)
+Definition c11_bcj2_data : list Z :=
+  [85; 232; 252; 255; 255; 255; 232; 1; 2; 3; 4; 144; 233; 16; 0; 0; 128; 15; 133; 255; 255; 255; 127;
+   232; 232; 9; 9; 9; 9; 15; 143; 0; 0; 0; 0; 15; 15; 232; 5; 6; 7; 8; 232; 1; 2].
+Definition c11_bcj2_ds : list bool := [true; false; true; true; false; true; true; true; true].
+
+Example C11_bcj2_example :
+  bytes_ok c11_bcj2_data = true /\ Z.of_nat (length c11_bcj2_data) <= 4294967289 /\
+  bcj2_encode c11_bcj2_data c11_bcj2_ds =
+    ([85; 232; 232; 1; 2; 3; 4; 144; 233; 15; 133; 232; 232; 15; 143; 15; 15; 232; 232; 1; 2],
+     [0; 0; 0; 2; 9; 9; 9; 38; 8; 7; 6; 47],
+     [128; 0; 0; 33; 128; 0; 0; 22; 0; 0; 0; 35],
+     [0; 182; 247; 252; 0; 0]) /\
+  (exists d', (let '(m, c, j, r) := bcj2_encode c11_bcj2_data c11_bcj2_ds in
+               bcj2_decode_oneshot m c j r (zlen c11_bcj2_data)) = Ok (true, d', c11_bcj2_data)) /\
+  (let '(m, c, j, r) := bcj2_encode c11_bcj2_data c11_bcj2_ds in
+   bcj2_dec_script (zlen c11_bcj2_data)
+     (data_script [firstn 5 m; skipn 5 m], [IData (firstn 3 c); IErr E_INTERRUPTED; IData (firstn 2 (skipn 3 c)); IData (skipn 5 c)],
+      data_script [firstn 1 j; firstn 5 (skipn 1 j); skipn 6 j], data_script [firstn 2 r; skipn 2 r]) [3; 0; 5; 1]) =
+    Ok (c11_bcj2_data, None).
+Proof.
+  split; [reflexivity|]. split; [vm_compute; discriminate|]. split; [vm_compute; reflexivity|].
+  split; [eexists; vm_compute; reflexivity|]. vm_compute. reflexivity.
+Qed.
